@@ -245,6 +245,12 @@ def build_impl(pgpy, K, case, tmp=None):
         sig = K.k[s['key']].sign(m, created=T0 + timedelta(seconds=s['dt']), hash=getattr(H, s['hash']))
         m |= sig
         added.append(sig)
+        if (len(added) + case['comp']) % 2 == 0:
+            # a caller that writes the message out BETWEEN two signings (countersigning workflow): later exports must not depend on it
+            try:
+                bytes(m); str(m)
+            except Exception:
+                pass
     return m, added
 
 
